@@ -85,6 +85,20 @@ func runChunkingMode() {
 			continue
 		}
 		checkSplits(r, name, root, o.String(), res.stream, res.truths, ps.frames[0].end, ps.zstd)
+		if !ps.zstd && len(ps.frames) > 1 && i%2 == 0 {
+			// the same frames with TRAILING BYTES after the column data of every data frame (the
+			// declared frame size covers them): the reader accepts such frames by design and skips
+			// the tail when it moves to the next frame - under short reads too
+			pad := []int{2, 37, 1, 700, 5000}[r.Intn(5)]
+			padded := ps.padded(pad)
+			pps := parseStream(padded)
+			if pps.err == nil && pps.totalRecords() == len(res.truths) {
+				stats["padded-frame-streams"]++
+				checkSplits(r, name+"-pad"+fmt.Sprint(pad), root, o.String()+" tail="+fmt.Sprint(pad), padded, res.truths, pps.frames[0].end, false)
+			} else {
+				note("note case %s: padded stream not parsed by the harness parser: %v", name, pps.err)
+			}
+		}
 		// every variant except dataerr splits the header region into several reads
 		note("nontrivial %x", fnv(name, hx(res.stream)))
 		if i%20 == 0 {
